@@ -515,6 +515,7 @@ func Verif_C12_IndexBuildIsolation() {
 	vsym.Assert(hindex.State == BuildDoneIndex, "the build finishes")
 	it, err := v.db.NewDBRangeIterator(encodeHsetIndexStartKey(hindex.Table, hindex.Name), encodeHsetIndexStopKey(hindex.Table, hindex.Name), common.RangeROpen, false)
 	vsym.Assert(err == nil, "iterator")
+	defer it.Close() // runs before the deferred close of the store, also when an assertion fails natively
 	n := 0
 	for ; it.Valid(); it.Next() {
 		_, _, _, pk, derr := decodeHsetIndexStringKey(it.Key())
@@ -525,6 +526,5 @@ func Verif_C12_IndexBuildIsolation() {
 			break
 		}
 	}
-	it.Close()
 	vsym.Reach("end")
 }
